@@ -128,6 +128,21 @@ func (o *originer) of(v ssa.Value) []string {
 	case *ssa.MakeSlice:
 		return []string{"make"}
 	case *ssa.Alloc:
+		if ptrSlices && isPtrToByteSlice(x.Type()) {
+			// &local where local is a byte slice: what the local holds
+			var r []string
+			if refs := x.Referrers(); refs != nil {
+				for _, ref := range *refs {
+					if st, ok := ref.(*ssa.Store); ok && st.Addr == x {
+						r = append(r, o.of(st.Val)...)
+					}
+				}
+			}
+			if len(r) == 0 {
+				return []string{"nil"}
+			}
+			return r
+		}
 		return []string{"alloc"}
 	case *ssa.Const:
 		if x.IsNil() {
@@ -211,6 +226,14 @@ func (o *originer) of(v ssa.Value) []string {
 		case *ssa.FreeVar:
 			return []string{"freevar:" + a.Name()}
 		}
+		if ptrSlices {
+			// a load through a pointer that is itself a parameter, a field, a call result …
+			var r []string
+			for _, c := range o.of(x.X) {
+				r = append(r, "deref:"+c)
+			}
+			return r
+		}
 		return []string{"load:" + fmt.Sprintf("%T", x.X)}
 	case *ssa.Field:
 		st := x.X.Type()
@@ -267,17 +290,37 @@ type writeRow struct {
 func genWrites(pkgs []*packages.Package, by map[string]*packages.Package, out string) {
 	prog, _ := ssautil.Packages(pkgs, ssa.InstantiateGenerics)
 	prog.Build()
-	ip := prog.Package(by["interpreter"].Types)
-	if ip == nil {
-		die("no SSA package for bscript/interpreter")
+	genWritesFor(prog, by, []string{"interpreter"}, out+"/Writes.lean", "GoBT.Gen.Writes", "/repo/bscript/interpreter", false)
+	// the library proper: also writes through pointers to byte slices (*bscript.Script receivers and arguments)
+	returnsFresh = map[*ssa.Function]map[int]bool{}
+	genWritesFor(prog, by, []string{"bt", "bscript"}, out+"/WritesLib.lean", "GoBT.Gen.WritesLib", "/repo (package bt) and /repo/bscript", true)
+}
+
+// ptrSlices: also follow pointers to byte slices (loads through them, writes through them in callees)
+var ptrSlices bool
+
+func isPtrToByteSlice(t types.Type) bool {
+	p, ok := t.Underlying().(*types.Pointer)
+	return ok && isByteSlice(p.Elem())
+}
+
+func genWritesFor(prog *ssa.Program, by map[string]*packages.Package, names []string, outFile, namespace, what string, ptrs bool) {
+	ptrSlices = ptrs
+	inSet := map[*ssa.Package]bool{}
+	for _, n := range names {
+		p := prog.Package(by[n].Types)
+		if p == nil {
+			die("no SSA package for %s", n)
+		}
+		inSet[p] = true
 	}
 	// all functions of the package (methods, closures)
 	var fns []*ssa.Function
 	for f := range ssautil.AllFunctions(prog) {
-		if f.Pkg == ip && f.Blocks != nil && f.Synthetic == "" {
+		if inSet[f.Pkg] && f.Blocks != nil && f.Synthetic == "" {
 			fns = append(fns, f)
 		}
-		if f.Pkg == ip && f.Blocks != nil && f.Synthetic != "" && f.Parent() != nil {
+		if inSet[f.Pkg] && f.Blocks != nil && f.Synthetic != "" && f.Parent() != nil {
 			fns = append(fns, f)
 		}
 	}
@@ -358,9 +401,18 @@ func genWrites(pkgs []*packages.Package, by map[string]*packages.Package, out st
 						}
 					default:
 						callee := c.StaticCallee()
-						samePkg := callee != nil && callee.Pkg == ip
+						samePkg := callee != nil && inSet[callee.Pkg]
 						args := c.Args
 						for i, a := range args {
+							if ptrSlices && isPtrToByteSlice(a.Type()) {
+								// &x handed to a function that writes through it: x's bytes (and spare capacity) are written
+								if samePkg && writesParam[callee][i] {
+									emit(fmt.Sprintf("callwrite:%s#%d", name, i), a, nil)
+								} else if !samePkg && !strings.HasPrefix(name, "builtin.") {
+									emit("extcall:"+name, a, nil)
+								}
+								continue
+							}
 							if !isByteSlice(a.Type()) {
 								continue
 							}
@@ -386,6 +438,7 @@ func genWrites(pkgs []*packages.Package, by map[string]*packages.Package, out st
 				}
 				for _, c := range originOf(v) {
 					c = strings.TrimPrefix(c, "append:")
+					c = strings.TrimPrefix(c, "deref:")
 					if strings.HasPrefix(c, "param:") {
 						if i := paramIndex(f, strings.TrimPrefix(c, "param:")); i >= 0 {
 							if writesParam[f] == nil {
@@ -441,7 +494,7 @@ func genWrites(pkgs []*packages.Package, by map[string]*packages.Package, out st
 		}
 	}
 	var sb strings.Builder
-	sb.WriteString("/- GENERATED by /verif/extract (go/ssa) from /repo/bscript/interpreter — do not edit. -/\nnamespace GoBT.Gen.Writes\n\n")
+	sb.WriteString("/- GENERATED by /verif/extract (go/ssa) from " + what + " — do not edit. -/\nnamespace " + namespace + "\n\n")
 	sb.WriteString("/-- (function, kind of write, origin components of the byte slice written to) -/\ndef sites : List (String × String × List String) := [\n")
 	for i, u := range uniq {
 		sep := ","
@@ -450,6 +503,6 @@ func genWrites(pkgs []*packages.Package, by map[string]*packages.Package, out st
 		}
 		sb.WriteString("  " + u.line + sep + "\n")
 	}
-	sb.WriteString("]\n\nend GoBT.Gen.Writes\n")
-	writeIfChanged(out+"/Writes.lean", sb.String())
+	sb.WriteString("]\n\nend " + namespace + "\n")
+	writeIfChanged(outFile, sb.String())
 }
